@@ -16,6 +16,10 @@ for _b in (8, 16, 32, 64, 128):
     FUNS[f"bvor{_b}"] = lambda a, b: a | b
     FUNS[f"bvand{_b}"] = lambda a, b: a & b
     FUNS[f"bvxor{_b}"] = lambda a, b: a ^ b
+    # signed variants: Python ints already behave as infinite two's complement
+    FUNS[f"bvor{_b}s"] = lambda a, b: a | b
+    FUNS[f"bvand{_b}s"] = lambda a, b: a & b
+    FUNS[f"bvxor{_b}s"] = lambda a, b: a ^ b
 
 
 class Native:
